@@ -464,6 +464,29 @@ pub fn snap(r: &mut Rng, o: &StateOpts, instr_names: &[String]) -> Snap {
     if o.random_cfg {
         s.cfg = cfg(r);
     }
+    // RELATED values across and within stacks (one state in four gets some): operands that are
+    // equal to each other, a bound name lying on the NAME stack, a loop index equal to two INTEGER
+    // operands, the same vector / code item twice - independent draws almost never line these up
+    if r.chance(1, 4) {
+        for _ in 0..1 + r.below(2) {
+            match r.below(8) {
+                0 if s.i.len() >= 2 => s.i[1] = s.i[0],
+                1 if s.f.len() >= 2 => s.f[1] = s.f[0],
+                2 if !s.nb.is_empty() => {
+                    let keys: Vec<String> = s.nb.keys().cloned().collect();
+                    s.n.insert(0, r.pick(&keys).clone());
+                }
+                3 if s.i.len() >= 2 && s.i[0] >= 0 && s.i[1] >= 0 && s.i[0] < 1000 && s.i[1] < 1000 => {
+                    s.x.insert(0, (s.i[0] as usize, s.i[1] as usize));
+                }
+                4 if s.iv.len() >= 2 => s.iv[1] = s.iv[0].clone(),
+                5 if s.fv.len() >= 2 => s.fv[1] = s.fv[0].clone(),
+                6 if s.c.len() >= 2 => s.c[1] = s.c[0].clone(),
+                7 if !s.c.is_empty() && !s.e.is_empty() => s.e[0] = s.c[0].clone(),
+                _ => {}
+            }
+        }
+    }
     s
 }
 
